@@ -24,7 +24,7 @@ ASSUMPTIONS = [
     "LookupError - recorded under C01)",
     "method bodies/signatures are irrelevant to the resolution: every method is (self) -> result_1: Int",
 ]
-BOUNDS = {"quick": "Top + 2 ancestor candidates, 2 method names (Top itself defines none or the first)", "thorough": "Top + 3 ancestor candidates (diamonds), 2 method names"}
+BOUNDS = {"quick": "Top + 2 ancestor candidates, 2 method names (Top itself defines none or the first)", "thorough": "the quick space plus Top + 3 ancestor candidates (chains of depth 3, diamonds over three classes) with reduced variation for the deeper classes"}
 MANIFEST = {
     "text": "Bounded symbolic: all hierarchies within the bound are explored by CrossHair partitions, each ending in "
             "'Confirmed over all paths'; member lists and sub clauses are compared with an independent reference.",
@@ -37,5 +37,8 @@ MANIFEST = {
 def plan(tier):
     t = 400 if tier == "quick" else 900
     parts = [f"0:{p},1:{n},2:{m}" for p in range(2) for n in range(2) for m in range(4)]
+    if tier == "thorough":  # first selector: quick space / deep space; deep: K0 private x K0 methods x K0 property/K0 superclass... x K1 private
+        parts = [f"0:0,1:{p},2:{n},3:{m}" for p in range(2) for n in range(2) for m in range(4)] + \
+                [f"0:1,1:{p},2:{m},3:{x},4:{y}" for p in range(2) for m in range(3) for x in range(2) for y in range(2)]
     return [CH("hierarchy", "harness.c17", "hierarchy", parts, timeout=t, desc="member lists and sub clauses vs reference",
-               bounds=BOUNDS[tier], symbolic="shape selectors", stubs=["in-memory FS"])]
+               bounds=BOUNDS[tier], symbolic="shape selectors", stubs=["in-memory FS"], allow_empty=tier == "thorough")]
